@@ -1,10 +1,10 @@
 (* C03 -- format auto-detection and transport independence of read/write.
    Only statements here; proofs are in proof/C03_Lemmas.v.  Transport independence itself (gzip, archives, glob, handles,
    CLI) is NOT a theorem: it is relational testing in tools/props/c03.py:extra_checks. *)
-From Coq Require Import List Bool.
+From Coq Require Import List Bool ZArith.
 From Coq.Strings Require Import Byte.
 Import ListNotations.
-From SV Require Import Text G_c03 C03_Model C03_Lemmas.
+From SV Require Import Text G_c03 C03_Model C03_Lemmas C03_Fts C03_Hits.
 
 (* the modelled chains are the regenerated priority lists FMTS_ALL, which start with FMTS *)
 Theorem C03_chains_pinned :
@@ -55,6 +55,56 @@ Theorem C03_detect_fts_sound_partial : forall o c,
   (shape_genbank c = true -> detect Fts o c = DFound (bs "genbank"%bs)).
 Proof. exact (fun o c => conj (detect_gff_fts_sound o c) (fun H => proj2 (detect_genbank_sound o c H))). Qed.
 Print Assumptions C03_detect_fts_sound_partial.
+
+(* TSV / CSV written by sugar (to_csv of the feature table, model render_xsv) of ANY length -- in particular longer than the
+   1000-character window of the sniffer, whose last (possibly cut) line is discarded -- is detected as tsv / csv; every
+   earlier sniffer of the regenerated chain rejects it.  wf_xsv: identifier column names with two of start/stop/len, first
+   one not "locus...", not exactly 12 columns, >= 1 row, rectangular, fields free of separator / tab / line breaks, header
+   shorter than the window.  TSV additionally: >= 4 columns (the default keys have 4). *)
+Theorem C03_detect_tsv_sound : forall o keys rows,
+  wf_xsv tab keys rows = true -> 4 <= length keys -> o_outfmt o = None -> sep_or o tab = tab ->
+  detect Fts o (render_xsv tab keys rows) = DFound (bs "tsv"%bs).
+Proof. exact detect_tsv_sound. Qed.
+Print Assumptions C03_detect_tsv_sound.
+
+Theorem C03_detect_csv_sound : forall o keys rows,
+  wf_xsv ","%byte keys rows = true -> o_outfmt o = None -> o_sep o = None ->
+  detect Fts o (render_xsv ","%byte keys rows) = DFound (bs "csv"%bs).
+Proof. exact detect_csv_sound. Qed.
+Print Assumptions C03_detect_csv_sound.
+
+Example C03_witness_xsv :
+  wf_xsv tab demo_keys (demo_rows tab) = true /\ wf_xsv ","%byte demo_keys (demo_rows ","%byte) = true /\
+  Nat.ltb 1000 (length (render_xsv tab demo_keys (demo_rows tab))) = true /\ 4 <= length demo_keys.
+Proof. exact witness_xsv. Qed.
+
+(* the same over writer models (first line as a function of the object; the models are compared with the real writers on
+   every run): FASTA of a non-empty basket, Stockholm with any body, GFF3 with any header / body *)
+Theorem C03_detect_writers_sound : forall o,
+  (forall recs, recs <> [] -> detect Seqs o (render_fasta recs) = DFound (bs "fasta"%bs)) /\
+  (forall body, detect Seqs o (render_stockholm body) = DFound (bs "stockholm"%bs)) /\
+  (forall header body, detect Seqs o (render_gff header body) = DFound (bs "gff"%bs) /\
+                       detect Fts o (render_gff header body) = DFound (bs "gff"%bs)).
+Proof. exact detect_writers_sound. Qed.
+Print Assumptions C03_detect_writers_sound.
+
+(* hit tables (BLAST outfmt 6 / 10, MMseqs2 fmtmode 0), PARTIAL: at the level of the two sniffers.  On any content whose
+   first line is a well-formed 12-column hit (hit_fields_ok) inside the 1000-character window, both one-line reads succeed
+   and the verdicts are exactly the documented discriminator: the identity column read as a fraction (MMseqs2, asked first)
+   resp. as a percentage (BLAST).  The rejection of such content by the gff / genbank / infernal sniffers earlier in the
+   chain is covered by the correspondence only. *)
+Theorem C03_hit_table_discriminator_partial : forall o sep fields c X h t fl,
+  hit_fields_ok sep fields = true -> o_outfmt o = None -> sep_or o tab = sep ->
+  splitlines (read_n 1000 c) = join sep fields :: X -> c = h :: t -> byte_eqb "#"%byte h = false ->
+  py_float (nth 2 fields []) = Some fl ->
+  is_fts_mmseqs o c = Some (float_in_range fl 1%Z 53%Z) /\ is_fts_blast o c = Some (float_in_range fl 100%Z 47%Z).
+Proof. exact hit_sniffers. Qed.
+Print Assumptions C03_hit_table_discriminator_partial.
+
+Example C03_witness_hits :
+  hit_fields_ok tab (demo_hit (bs "95.408"%bs)) = true /\ hit_fields_ok ","%byte (demo_hit (bs "0.954"%bs)) = true /\
+  ident_percent_ok (bs "95.408"%bs) = true /\ ident_fraction_ok (bs "95.408"%bs) = false /\ ident_fraction_ok (bs "0.954"%bs) = true.
+Proof. exact witness_hits. Qed.
 
 (* extension tables: every declared extension selects its own format, no extension is declared twice *)
 Theorem C03_ext_tables_ok :
